@@ -55,11 +55,14 @@ theorem stored_body_paired (cfg : Cfg) (tbl : Nat → Option ORes) (c : Cache) (
       ((handle cfg tbl c now r).1.status = 200 → st = 0 ∧ len = o.size) :=
   Rv.Lemmas.FetchB.stored_body_paired cfg tbl c now r v st len hb
 
-/-- C07: an If-Range that does not match the stored validator yields the full 200. -/
+/-- C07: an If-Range that does not match the stored validator yields the full
+    200: a 206 built by the proxy (not the origin's own 206 relayed) is only given
+    when the If-Range, if any, matches the stored validator. -/
 theorem if_range_mismatch_full (cfg : Cfg) (tbl : Nat → Option ORes) (c : Cache) (now : Int) (r : Req)
-    (h : (handle cfg tbl c now r).1.status = 206) :
+    (h : (handle cfg tbl c now r).1.status = 206)
+    (hnr : ∀ u ∈ (handle cfg tbl c now r).2.2, ansStatus (originAnswer tbl u) ≠ 206) :
     ∃ e ∈ (handle cfg tbl c now r).2.1, e.res = r.res ∧ e.query = r.query ∧ ifRangeMismatch r e = false :=
-  Rv.Lemmas.FetchB.if_range_mismatch_full cfg tbl c now r h
+  Rv.Lemmas.FetchB.if_range_mismatch_full cfg tbl c now r h hnr
 
 /-- C16: the status code handed to WriteHeader is always a valid one (the
     `WriteHeader(0)` panic of the unfixed retry path cannot occur), provided the
